@@ -71,6 +71,7 @@ class Config(object):
         self.fn_candidates = None   # list of Func that a user-supplied callable may alias
         self.ghost_hooks = {}
         self.py312 = True
+        self.custom_types = {}
 
 
 def mangle(name, owner):
@@ -168,6 +169,9 @@ class Engine(object):
             return Val.is_ref(t)
         if isinstance(ty, tuple) and ty[0] == "weakref":
             return z3.And(Val.is_ref(t), cls_of(Val.id(t)) == self.tag("weakref"))
+        custom = getattr(self.cfg, "custom_types", {}).get(ty)
+        if custom is not None:
+            return custom(self, st, t)
         raise Unsupported("type %r" % (ty,))
 
     def typed(self, st, t, ty, assume=True):
@@ -499,15 +503,15 @@ class Engine(object):
             if reentrant and kind == "RLock":
                 continue
             held_ids.append((owner, lf, kind))
-        old = dict(st.heap)
         old_f = tuple(st.arr(n) for n in FUT_ARRAYS)
+        old = dict(st.heap)
         for name in list(st.heap.keys()):
             if name in cfg.stable:
                 continue
             sort = SPECIAL.get(name, None)
             a = old[name]
             new = fresh("H_" + name.strip("$"), a.sort())
-            keep = [z3.IntVal(p) for p in sorted(st.private)]
+            keep = [z3.IntVal(p) for p in sorted(st.private | st.frozen)]
             if name in cfg.protected or name in ("$len", "$at", "$mem", "$dval"):
                 for (owner, lf, kind) in held_ids:
                     if owner is None:
@@ -1074,6 +1078,11 @@ class Engine(object):
                     yield r
                 return
             raise Unsupported("call of instance of %s" % ty[1])
+        h = self.cfg.opaque_modes.get(ty)
+        if h is not None:
+            for r in h(self, st, fr, fn, args, kwargs, star, starkw, node):
+                yield r
+            return
         # a user-supplied callable may alias one of the library's own function objects that
         # escape as values (identity, f_return, ...): dispatch on those first, the rest is opaque
         cands = self.cfg.fn_candidates or []
